@@ -219,6 +219,16 @@ def sc_referrers_during_collection(rng, cid, store):
     return dict(id=cid, conf=conf, steps=steps, scenario="referrers-during-collection")
 
 
+def sc_timer_vs_last_session(rng, cid, store):
+    """the only open upload session of a repository ends (cancelled, or completed) at the moment the expiry timer of the session
+    cache fires, many times over with microsecond offsets: the end of the session and the timer's prune both come to an end"""
+    grace = rng.choice([2, 3])
+    conf = mkconf(store=store, withsubj=False, grace_ms=grace)
+    steps = [dict(kind="timerrace", impl=dict(op="timerrace", repo="probe", secs=grace / 1000.0, n=400 if store == "mem" else 150), model="(skip)"),
+             timed(tag_list("probe"), 3000), special("close")]
+    return dict(id=cid, conf=conf, steps=steps, scenario="session-end-vs-expiry-timer")
+
+
 def sc_cancelled(rng, cid, store):
     """requests whose client went away before they were served (context already cancelled), to an existing repository, while
     collections run: they may be refused, but the next collection, later requests and Close complete"""
@@ -272,7 +282,7 @@ def run(ctx):
     cases = []
     for _ in range(reps):
         for store in ("mem", "dir"):
-            for f, n in ((sc_waiter, 4), (sc_close_ticker, 3), (sc_uploads, 4), (sc_mixed, 5), (sc_gc_cycle, 2), (sc_self_mount, 2), (sc_unknown_session, 4), (sc_close_queued, 3), (sc_cancelled, 3), (sc_referrers_during_collection, 3)):
+            for f, n in ((sc_waiter, 4), (sc_close_ticker, 3), (sc_uploads, 4), (sc_mixed, 5), (sc_gc_cycle, 2), (sc_self_mount, 2), (sc_unknown_session, 4), (sc_close_queued, 3), (sc_cancelled, 3), (sc_referrers_during_collection, 3), (sc_timer_vs_last_session, 2)):
                 for _ in range(n):
                     if f is sc_gc_cycle and store != "dir":
                         continue
